@@ -61,9 +61,14 @@ def norm(v):
 
 
 def eval_expr(e, lookup):
+    """ordinary arithmetic; integral results (and literals) are integers at every step"""
+    return norm(_eval_expr(e, lookup))
+
+
+def _eval_expr(e, lookup):
     if isinstance(e, Lit): return e.v
     if isinstance(e, Var): return lookup(e.name)
-    if isinstance(e, Not): return not norm(eval_expr(e.e, lookup))
+    if isinstance(e, Not): return not eval_expr(e.e, lookup)
     a, b = eval_expr(e.l, lookup), eval_expr(e.r, lookup)
     op = e.op
     if op == '+':
